@@ -414,6 +414,12 @@ class VgiAccessLogFormatter(VgiJsonFormatter):
             "error_type": obj.get("error_type", ""),
             "truncated": "record_too_large",
         }
+        # The schema requires stream_id on every stream record, and it is what
+        # joins this record to the rest of its stream: it is tiny and must
+        # survive even when everything optional is shed.
+        stream_id = obj.get("stream_id")
+        if isinstance(stream_id, str) and stream_id:
+            sentinel["stream_id"] = stream_id
         if sentinel["status"] == "error":
             err = obj.get("error_message")
             sentinel["error_message"] = err if isinstance(err, str) and err else "record_too_large"
